@@ -76,6 +76,9 @@ def collect(ctx: Ctx):
                     q = bytearray(p)
                     q[pos] ^= 1 << bit
                     q = bytes(q)
+                    if (pos + bit) % 2 == 0:
+                        # history: the authentic packet is received (and decoded) immediately before its altered copy, on the same connection object
+                        result_of(lambda: proto0._process_packet(memoryview(p)))
                     res1 = result_of(lambda: proto0._process_packet(memoryview(q)))
                     res = res1
                     res2 = result_of(lambda: _Packet.decode(proto0._process_packet(memoryview(q))))
